@@ -107,6 +107,10 @@ func main() {
 		os.Exit(2)
 	}
 	mode := os.Args[1]
+	if mode == "conc" {
+		runConc(os.Args[2:])
+		return
+	}
 	fs := flag.NewFlagSet(mode, flag.ExitOnError)
 	suiteName := fs.String("suite", "", "suite name")
 	seed := fs.Int64("seed", 1, "seed")
